@@ -283,7 +283,11 @@ func Judge(e *rt.Entry, sc *prog.Scenario, x *rt.Exec) []Viol {
 	// once a user function has been entered -------------------------------------
 	if p.Bare {
 		late := func(format string, a ...interface{}) {
-			j.add(uniq("C15"), "an argument of the directive was evaluated after a user function had started (the program overwrites its argument variables when the first user function is entered): "+format, a...)
+			when := "after a user function had started (the program overwrites its argument variables when the first user function is entered)"
+			if p.BareMix > 0 {
+				when = "after an argument that follows it in the source, or after a user function had started (every argument of this program that is a call overwrites the argument variables written before it, and all are overwritten when the first user function is entered)"
+			}
+			j.add(uniq("C15"), "an argument of the directive was evaluated "+when+": "+format, a...)
 		}
 	bare:
 		for _, c := range j.calls {
